@@ -394,23 +394,32 @@ func VerifC12Reject() {
 		`{"header.Append": {"name": "X-Trace", "value": 7}}`,
 	}
 	bad := bads[vf.Choice("corruption", len(bads))]
+	// every kind of filter that has a then- and an else-branch
+	filters := []string{
+		`{"header.Filter": {"name": "X-Cond-1", "value": "1", `,
+		`{"querystring.Filter": {"name": "q", "value": "1", `,
+		`{"url.Filter": {"host": "example.com", `,
+		`{"method.Filter": {"method": "GET", `,
+		`{"cookie.Filter": {"name": "c", "value": "1", `,
+	}
+	filter := filters[0]
 	wraps := []func(string) string{
 		func(s string) string { return s },
 		func(s string) string { return `{"fifo.Group": {"modifiers": [` + leaf("W1") + `, ` + s + `]}}` },
 		func(s string) string {
 			return `{"priority.Group": {"modifiers": [{"priority": 1, "modifier": ` + leaf("W2") + `}, {"priority": 2, "modifier": ` + s + `}]}}`
 		},
-		func(s string) string {
-			return `{"header.Filter": {"name": "X-Cond-1", "value": "1", "modifier": ` + s + `, "else": ` + leaf("W3") + `}}`
-		},
-		func(s string) string {
-			return `{"header.Filter": {"name": "X-Cond-1", "value": "1", "modifier": ` + leaf("W4") + `, "else": ` + s + `}}`
-		},
+		func(s string) string { return filter + `"modifier": ` + s + `, "else": ` + leaf("W3") + `}}` },
+		func(s string) string { return filter + `"modifier": ` + leaf("W4") + `, "else": ` + s + `}}` },
 		func(s string) string {
 			return `{"fifo.Group": {"modifiers": [{"fifo.Group": {"modifiers": [` + s + `]}}]}}`
 		},
 	}
-	cfg := wraps[vf.Choice("position", len(wraps))](bad)
+	pos := vf.Choice("position", len(wraps))
+	if pos == 3 || pos == 4 {
+		filter = filters[vf.Choice("filter-kind", len(filters))]
+	}
+	cfg := wraps[pos](bad)
 	_, err := parse.FromJSON([]byte(cfg))
 	vf.Assert(err != nil, "corrupted-configuration-rejected-as-a-whole")
 
